@@ -17,7 +17,6 @@ import (
 	"time"
 
 	"mvdan.cc/sh/v3/interp"
-	"mvdan.cc/sh/v3/syntax"
 )
 
 // ---------------------------------------------------------------------------------------------
@@ -755,33 +754,6 @@ func c28Mutate(r *Rand, seeds []string, s string) string {
 		}
 	}
 	return s
-}
-
-// c28Excluded reports whether a parsed program contains one of the constructs of an open known
-// finding (the generator "avoids exactly that region"); such programs are still run, and a panic
-// in them is attributed by c28Classify.
-func c28ExcludedRegion(f *syntax.File) string {
-	region := ""
-	syntax.Walk(f, func(n syntax.Node) bool {
-		switch n := n.(type) {
-		case *syntax.UnaryArithm:
-			if n.Op == syntax.Inc || n.Op == syntax.Dec {
-				if w, ok := n.X.(*syntax.Word); !ok || w.Lit() == "" {
-					region = "arith-lvalue-index"
-				}
-			}
-		case *syntax.BinaryArithm:
-			switch n.Op {
-			case syntax.Assgn, syntax.AddAssgn, syntax.SubAssgn, syntax.MulAssgn, syntax.QuoAssgn, syntax.RemAssgn,
-				syntax.AndAssgn, syntax.OrAssgn, syntax.XorAssgn, syntax.ShlAssgn, syntax.ShrAssgn:
-				if w, ok := n.X.(*syntax.Word); !ok || w.Lit() == "" {
-					region = "arith-lvalue-index"
-				}
-			}
-		}
-		return true
-	})
-	return region
 }
 
 // ---------------------------------------------------------------------------------------------
